@@ -144,10 +144,27 @@ def main() -> int:  # noqa: C901, PLR0912, PLR0915
     lines = []
     unlisted = 0
     listed = 0
-    replay_dir = os.path.join(ROOT, "replays", prop)
-    if os.path.isdir(replay_dir):
-        for f in os.listdir(replay_dir):  # replays of earlier runs are stale
-            os.unlink(os.path.join(replay_dir, f))
+    # one directory per run (concurrent runs of the same check must not disturb each other);
+    # directories of runs whose process is gone are stale and removed
+    prop_dir = os.path.join(ROOT, "replays", prop)
+    replay_dir = os.path.join(prop_dir, f"r{os.getpid()}")
+    if os.path.isdir(prop_dir):
+        for name in os.listdir(prop_dir):
+            path = os.path.join(prop_dir, name)
+            alive = False
+            if name.startswith("r") and name[1:].isdigit():
+                try:
+                    os.kill(int(name[1:]), 0)
+                    alive = True
+                except OSError:
+                    alive = False
+            if not alive:
+                if os.path.isdir(path):
+                    for f in os.listdir(path):
+                        os.unlink(os.path.join(path, f))
+                    os.rmdir(path)
+                else:
+                    os.unlink(path)
     for sig in sorted(best):
         w = best[sig]
         if sig in known:
